@@ -724,10 +724,44 @@ def run_corpus(res):
         res.count('corpus:' + ('same' if ok else 'differs'))
 
 
+def coverage_probe():
+    '''A few direct calls of the anchored helpers whose shapes the witnesses,
+    the corpus and the layout tie do not contain (all are also in the
+    exhaustive ties, which run untraced for speed).'''
+    for toks, expected in [(['1', '2r', 'r', '2i', '4', 'i', '5', '3m', 'j', '2j'], None),
+                           (['1', '3r'], 4), (['1', '5r'], 4), (['m'], None), (['1'], 3)]:
+        I.f_expand(toks, expected)
+    for tok in ['1.5', '1.5d3', '-6.4-2', '1.5+-3', 'x']:
+        I.f_to_float(tok)
+    from t4_geom_convert.Kernel.Utils import normalize_float
+    for tok in ['1.0', '1.00', '1.', '6.4-2', '1.50e-3', '-5d4', '7']:
+        normalize_float(tok)
+    for text in ['     y\n1 x &\nc k\n z\n', 'c\n', '1 x\n\tq\n']:
+        I.f_get_cards(text)
+        I.f_block_cards(text)
+    for text in ['', 'a', 'a\n\nb\n\nc\n\nd\n\ne', 'message: x\n\nt\nc\n']:
+        I.f_blocks(text)
+
+
 def run(res, tier, seed, proofs_ok):
+    import c14_cov
     del I.HANGS[:]
+    cov = c14_cov.LineCov(c14_cov.anchored_functions())
     try:
-        run_all(res, tier, seed)
+        run_all(res, tier, seed, cov)
+        total, missing = cov.missing(c14_cov.UNREACHABLE)
+        res.obligation('coverage: witnesses, corpus, layout tie and probe calls '
+                       f'execute every reachable line of the anchored functions '
+                       f'({total} lines of {len(cov.codes)} code objects)',
+                       not missing, f'never executed: {missing[:6]}')
+        res.extra['anchored_lines'] = total
+        if missing:
+            res.violation('harness-error',
+                          'generated inputs no longer reach these lines of the '
+                          f'anchored code (strengthen the generators): {missing[:8]}',
+                          {'theorem_or_correspondence': 'coverage',
+                           'input': {'lines': [list(m) for m in missing[:20]]}},
+                          found_input=False)
     except I.TooManyHangs as exc:
         res.obligation('implementation calls return', False, str(exc))
         res.violation('impl-violation', 'the front end does not terminate: '
@@ -737,7 +771,7 @@ def run(res, tier, seed, proofs_ok):
                       found_input=True)
 
 
-def run_all(res, tier, seed):
+def run_all(res, tier, seed, cov):
     rng = random.Random(seed)
     res.rule = ('(a) every string up to a length over small alphabets for each '
                 're-implemented regex/str method; (b) all line sequences from '
@@ -749,15 +783,19 @@ def run_all(res, tier, seed):
                 'message block, blank-line runs, dropped "=", IMP/FILL shorthand, '
                 'number spellings) + malformed texts + a fixed corpus; non-trivial = text differs from '
                 'the canonical rendering / >= 2 lines')
-    run_witnesses(res)
-    run_corpus(res)
+    with cov:
+        run_witnesses(res)
+        run_corpus(res)
+        coverage_probe()
     # the Python side of the three ties first, then their Coq files run in the
     # background while the sweep converts decks
     from concurrent.futures import ThreadPoolExecutor
     rng_layout = random.Random(rng.random())
     rng_sweep = random.Random(rng.random())
+    with cov:
+        layout_phase = prepare_layout(res, tier, rng_layout)
     phases = [prepare_exhaustive(res, tier), prepare_lines(res, tier),
-              prepare_layout(res, tier, rng_layout), prepare_expand(res, tier)]
+              layout_phase, prepare_expand(res, tier)]
     with ThreadPoolExecutor(max_workers=4) as pool:
         futures = [pool.submit(job) for job, _ in phases]
         run_sweep(res, tier, rng_sweep)
